@@ -415,16 +415,17 @@ CHECKS = {
         rule=("as C02 but the data is fed through init/update*/finalize; partitions are generated in five styles (1-3 byte pieces with empty updates, "
               "pieces chosen relative to the carried residue r: <16-r, =16-r, >16-r, >>16-r, uniform, multiples of 16 +/- tail, mixed) and differ between the "
               "encrypt and decrypt pass; _nt updates use multiples of 64 except the last; outputs and tag are compared with the SP 800-38D reference "
-              "(which the one-shot call is compared with in C02); distinct_nontrivial counts (family, carried residue, piece class, direction, key size, nt) cells "
+              "(which the one-shot call is compared with in C02); per family one stream with updates of 1, exactly 2^32 and 9 bytes (128-bit key; thorough both key sizes) against OpenSSL; distinct_nontrivial counts (family, carried residue, piece class, direction, key size, nt) cells "
               "plus the C02 case classes"),
         assumptions=AES_TRUST,
-        tasks=aes_tasks("C07", "gcmstream", GCM_FAMS, 1500, 60000),
+        tasks=lambda tier: aes_tasks("C07", "gcmstream", GCM_FAMS, 1500, 60000)(tier)
+        + [dict(engine="aesdiff", variant="plain", timeout=3000, args=["--prop", "C07", "--what", "gcmhuge2", "--fam", fam, "--from", 0, "--count", 1, "--watchdog", 2900]) for fam in GCM_FAMS],
     ),
     "C03": dict(
         technique='runtime differential oracle: IEEE 1619 reference / OpenSSL vs every family and route; PROT_NONE buffers for lengths below 16',
         level="exploration", evaluations="xts_calls", must_observe=["xts_calls", "xts_short_calls", "cases_sse", "cases_avx", "cases_vaes"],
         rule=("case c<=1100 uses data-unit length c exactly (0..15: both buffers point into PROT_NONE pages for the family/legacy entry points, isal_ must return CIPH_LEN "
-              "and modify nothing; 16..1100: every tail with and without stealing), later cases around the 8/16-block loop edges, up to 64 KiB (2^24 and 2^24-1 in thorough); "
+              "and modify nothing; 16..1100: every tail with and without stealing), cases 1101/1102 use the documented maximum 2^24 and 2^24-1 bytes, later cases lie around the 8/16-block loop edges, up to 64 KiB; "
               "enc and dec, raw and pre-expanded keys (schedules from the FIPS-197 reference), both key sizes, in-place or disjoint, random alignment of data, keys and tweak; "
               "distinct_nontrivial = distinct (family, key size, dir, expanded, in-place, route, length class)"),
         assumptions=AES_TRUST,
@@ -435,10 +436,12 @@ CHECKS = {
         level="exploration", evaluations=["cbc_calls", "keyexp_calls"], must_observe=["cbc_calls", "keyexp_calls", "cases_sse", "cases_avx", "cases_avx512_g2"],
         rule=("key expansion of random and constant-byte keys for 128/192/256 (+128_enc) on both families and both API routes, compared byte for byte with the FIPS-197 "
               "schedule and its equivalent-inverse decryption schedule; CBC with N = c blocks for c in 1..80 then lengths around the 8/16-block loop edges up to 64 KiB "
-              "(1 MiB in thorough), enc x4/x8 and dec sse/avx/vaes_avx512, in-place or disjoint, data alignment 0..63, compared with the SP 800-38A reference; "
+              "(1 MiB in thorough), enc x4/x8 and dec sse/avx/vaes_avx512, in-place or disjoint, data alignment 0..63, compared with the SP 800-38A reference; one decrypt call of 2^32+48 bytes per family "
+              "(thorough: all key sizes, encrypt too) against OpenSSL; "
               "distinct_nontrivial = distinct (family, key size, dir, in-place, route, block-count class) and (key size, key)"),
         assumptions=AES_TRUST,
-        tasks=aes_tasks("C04", "cbc", ["sse", "avx", "avx512_g2"], 1500, 40000),
+        tasks=lambda tier: aes_tasks("C04", "cbc", ["sse", "avx", "avx512_g2"], 1500, 40000)(tier)
+        + [dict(engine="aesdiff", variant="plain", timeout=3000, args=["--prop", "C04", "--what", "cbchuge", "--fam", fam, "--from", 0, "--count", 1, "--watchdog", 2900]) for fam in ("sse", "avx", "avx512_g2")],
     ),
     "C05": dict(
         technique='runtime differential oracle: multi-hash definition built on reference SHA-1/SHA-256 vs every family, route and update segmentation; AddressSanitizer build',
